@@ -152,24 +152,29 @@ theorem lookupC_inv {c : Core} (nm : Name) (hI : Inv c) : Inv (lookupC c nm).1 :
 theorem lookupC_n (c : Core) (nm : Name) : (lookupC c nm).1.n = c.n ∧ (lookupC c nm).1.objs = c.objs := by
   rcases lookupC_core c nm with h | ⟨i, _, h⟩ <;> rw [h] <;> simp [setOt]
 
-/-- `lookup_unique_live` on the structures: find_obj_n finds exactly the live object carrying the name -/
-theorem lookupC_spec {c : Core} (hI : Inv c) (nm : Name) (i : Nat) :
+/-- find_obj_n finds exactly the live object carrying the name (needs only the name table part of the invariant) -/
+theorem lookupC_spec' {c : Core} (hN : Names c.n (deadF c) (nameF c) c.ot c.ctr) (nm : Name) (i : Nat) :
     (lookupC c nm).2 = some i ↔ (i < c.n ∧ (c.objs i).destructed = false ∧ (c.objs i).name = nm) := by
   constructor
   · intro h
     have ⟨hm, hn⟩ := lookupC_some h
-    have := (hI.names.mem _ _).mp hm
+    have := (hN.mem _ _).mp hm
     exact ⟨this.1, this.2.1, hn⟩
   · intro ⟨hlt, hd, hn⟩
     cases hr : (lookupC c nm).2 with
     | none =>
-      have hm : i ∈ c.ot (hashN nm) := (hI.names.mem _ _).mpr ⟨hlt, hd, by simp [nameF, hn]⟩
+      have hm : i ∈ c.ot (hashN nm) := (hN.mem _ _).mpr ⟨hlt, hd, by simp [nameF, hn]⟩
       exact absurd hn (lookupC_none hr i hm)
     | some j =>
       have ⟨hm, hnj⟩ := lookupC_some hr
-      have hj := (hI.names.mem _ _).mp hm
-      have : j = i := hI.names.uniq j i hj.1 hj.2.1 hlt hd (by simp [nameF, hnj, hn])
+      have hj := (hN.mem _ _).mp hm
+      have : j = i := hN.uniq j i hj.1 hj.2.1 hlt hd (by simp [nameF, hnj, hn])
       rw [this]
+
+/-- `lookup_unique_live` on the structures: find_obj_n finds exactly the live object carrying the name -/
+theorem lookupC_spec {c : Core} (hI : Inv c) (nm : Name) (i : Nat) :
+    (lookupC c nm).2 = some i ↔ (i < c.n ∧ (c.objs i).destructed = false ∧ (c.objs i).name = nm) :=
+  lookupC_spec' hI.names nm i
 
 /-! ## allocation -/
 
